@@ -314,7 +314,7 @@ fn gen_decimal_for_to_f64(r: &mut Rng) -> Dec {
             // around f64::MAX: digits x 10^n forms and the exact integer
             let lead = *r.pick(&["1", "15", "16", "17", "1797", "179769", "1797693134862315", "17976931348623157", "17976931348623158", "1797693134862315807", "18", "2", "9", "125"]);
             let mut s = lead.to_string();
-            let extra = r.below(50) as usize;
+            let extra = if r.chance(1, 3) { 0 } else { r.below(50) as usize };
             for _ in 0..extra { s.push((b'0' + r.below(10) as u8) as char); }
             let n: BigInt = s.parse().unwrap();
             let digits = s.len() as i64;
